@@ -194,17 +194,18 @@ def script_for(rng, k):
 # T1: translator self-validation
 # ------------------------------------------------------------------------------------------------
 
-def fragment(modfile, func, sel):
+def fragment(modfile, desc):
+    """the statements the descriptor selects in the RUNNING source, with the descriptor's synthetic return (which names the results
+    through the expression that consumes them, not through the names of locals: a renamed local does not matter)"""
     sys.path.insert(0, str(core.ROOT / "tools"))
     import py2lean
     tree = ast.parse(open(modfile).read())
-    f = py2lean.find_func(tree, func)
-    return py2lean.select(f, sel)
+    return py2lean.fragment_stmts(desc, tree)
 
 
 def make_fn(name, params, stmts, ret, glb):
     fn = ast.FunctionDef(name=name, args=ast.arguments(posonlyargs=[], args=[ast.arg(arg=p) for p in params], kwonlyargs=[],
-                         kw_defaults=[], defaults=[]), body=[*stmts, ast.parse(ret).body[0]], decorator_list=[], type_params=[])
+                         kw_defaults=[], defaults=[]), body=[*stmts, *(ast.parse(ret).body if ret else [])], decorator_list=[], type_params=[])
     m = ast.Module(body=[fn], type_ignores=[])
     ast.fix_missing_locations(m)
     ns = dict(glb)
@@ -222,11 +223,12 @@ def leg_t1(ctx):
     desc = {t["name"]: t for spec in FILES.values() for t in spec["targets"]}
     n_cases = 0
     try:
-        f_len = make_fn("eye_len", ["N", "M", "k"], fragment(Cm.__file__, "eye", desc["eyeLen"]["select"]), "return data_length",
-                        {"builtins": builtins})
-        f_coord = make_fn("eye_coord", ["data_length", "k"], fragment(Cm.__file__, "eye", desc["eyeCoord"]["select"]),
-                          "return (n_coords, m_coords)", {"np": np})
-        chain = fragment(U.__file__, "random", desc["randomBranch"]["select"][:2])
+        f_len = make_fn("eye_len", ["N", "M", "k"], fragment(Cm.__file__, desc["eyeLen"]), None, {"builtins": builtins})
+        # the length the coordinate statements read is whatever the source calls it: the name the eyeLen fragment returns
+        len_name = ast.unparse(fragment(Cm.__file__, desc["eyeLen"])[-1].value)
+        f_coord_ = make_fn("eye_coord", [len_name, "k"], fragment(Cm.__file__, desc["eyeCoord"]), None, {"np": np, "slice": lambda a, b, c: (a, b)})
+        f_coord = lambda L, k: f_coord_(L, k)  # noqa: E731
+        chain = py2lean.select(py2lean.find_func(ast.parse(open(U.__file__).read()), "random"), desc["randomBranch"]["select"][:2])
     except py2lean.Refuse as e:
         ctx.fail("T1", "fragment", {"fragment": "select"}, f"fragment not found in the running source: {e}")
         return
